@@ -50,25 +50,25 @@ func Clamp01
 // left folds: the defining equations of the spec functions are the property's
 // "left-to-right + and * with 0 and 1 for no arguments"
 spec sumTo(v []T, k int) elem(v)
-axiom sumTo_zero(v []T): sumTo(v, 0) == 0
-axiom sumTo_step(v []T, k int): k >= 0 ==> sumTo(v, k+1) == sumTo(v, k) + v[k]
+axiom sumTo_zero(v []T): ident(sumTo(v, 0), 0)
+axiom sumTo_step(v []T, k int): k >= 0 ==> ident(sumTo(v, k+1), sumTo(v, k) + v[k])
 spec prodTo(v []T, k int) elem(v)
-axiom prodTo_zero(v []T): prodTo(v, 0) == 1
-axiom prodTo_step(v []T, k int): k >= 0 ==> prodTo(v, k+1) == prodTo(v, k) * v[k]
+axiom prodTo_zero(v []T): ident(prodTo(v, 0), 1)
+axiom prodTo_step(v []T, k int): k >= 0 ==> ident(prodTo(v, k+1), prodTo(v, k) * v[k])
 
 func Sum
   property C20
-  ensures[fold] result == sumTo(v, len(v))
+  ensures[fold] ident(result, sumTo(v, len(v)))
   loop 0 use sumTo_zero(v)
   loop 0 use sumTo_step(v, rangeindex + 1)
-  loop 0 invariant -1 <= rangeindex && rangeindex < len(v) && sum == sumTo(v, rangeindex + 1)
+  loop 0 invariant -1 <= rangeindex && rangeindex < len(v) && ident(sum, sumTo(v, rangeindex + 1))
 
 func Product
   property C20
-  ensures[fold] result == prodTo(v, len(v))
+  ensures[fold] ident(result, prodTo(v, len(v)))
   loop 0 use prodTo_zero(v)
   loop 0 use prodTo_step(v, rangeindex + 1)
-  loop 0 invariant -1 <= rangeindex && rangeindex < len(v) && product == prodTo(v, rangeindex + 1)
+  loop 0 invariant -1 <= rangeindex && rangeindex < len(v) && ident(product, prodTo(v, rangeindex + 1))
 
 func Abs
   property C20
